@@ -77,7 +77,8 @@ def random_case(rng, max_states=5, max_syms=3, kinds=("enfa", "nfa", "dfa"), vcs
                 edits.append(["add_s", rng.randrange(max(n, 1))])
             elif kind != "dfa" or rng.random() < 0.6:
                 # on a DFA this may be a second successor for (state, symbol), which the library refuses
-                edits.append(["add_t", rng.randrange(max(n, 1)), rng.randrange(k), rng.randrange(max(n, 1))])
+                sym = EPSID if (kind == "enfa" and rng.random() < 0.4) else rng.randrange(k)
+                edits.append(["add_t", rng.randrange(max(n, 1)), sym, rng.randrange(max(n, 1))])
             else:
                 edits.append(["add_f", rng.randrange(max(n, 1))])
         if rng.random() < 0.3 and n >= 1:
